@@ -644,6 +644,139 @@ def base_answers_case(seed, role="client"):
         return info
 
 
+def statemachine_case(seed, role="client", length=6):
+    """C06 on the real loopback: a random sequence of inbound messages and local events applied to an Open node; after each
+    event the reported state and the messages written are compared with the hard clauses of the reference model (bvm/scen.py)."""
+    from . import scen
+    rng = random.Random(seed)
+    sc = RealScenario(role)
+    info = {"kind": "statemachine", "seed": seed, "role": role}
+    delivered = []
+    try:
+        sc.open()
+
+        def consumer():
+            while True:
+                m = sc.node.get_message()
+                if m is None:
+                    return
+                delivered.append(m.header.get_hop_by_hop())
+        threading.Thread(target=consumer, daemon=True, name="consumer").start()
+        ids = scen.Ids(1000 + rng.randrange(10000))
+        model = scen.OPEN
+        trace = []
+        events = ["DWR", "DWR", "DWR-other-host", "DWA", "DPA", "APP-req", "APP-req", "APP-req-misaddressed", "APP-ans", "CER", "CEA",
+                  "DPR", "local-stop", "peer-disconnect", "DPR-bad-cause"]
+
+        def drain(quiet=0.25, limit=10.0):
+            """everything the node writes until it has been silent for `quiet` seconds"""
+            out = []
+            t_end = time.monotonic() + limit
+            last = time.monotonic()
+            sc.psock.settimeout(0.05)
+            while time.monotonic() < t_end and time.monotonic() - last < quiet:
+                try:
+                    d = sc.psock.recv(65536)
+                except socket.timeout:
+                    d = None
+                except OSError:
+                    break
+                if d:
+                    sc.buf += d
+                    last = time.monotonic()
+                elif d == b"":
+                    break
+                sc._parse()
+            take, sc.ready = sc.ready, []
+            return [R.decode(m)[0] for m in take]
+        for step in range(length):
+            ev = rng.choice(events)
+            if model == scen.CLOSING:
+                ev = rng.choice(["DPA", "DPA", "DWR", "APP-req", "peer-disconnect"])
+            exp = scen.model_step(model, ev, role)
+            trace.append(ev)
+            data, (h, e) = scen.event_bytes(ev, ids)
+            ndel = len(delivered)
+            if data is not None:
+                sc.psock.sendall(data)
+            elif ev == "local-stop":
+                sc.node.close()
+            elif ev == "peer-disconnect":
+                sc.psock.close()
+            want_state = {scen.OPEN: ("I-Open", "R-Open"), scen.CLOSING: ("Closing",), scen.CLOSED: ("Closed",)}[exp["next"]]
+            if exp["hard"]:
+                try:
+                    sc.wait(lambda: sc.node.get_current_state() in want_state, "state %s after %s" % (want_state, trace), 20)
+                except Timeout:
+                    info.update(result="violation", key="real-loopback-state-differs-from-model", detail="after %s the node reports %s, the model says %s" % (
+                        trace, sc.node.get_current_state(), exp["next"]))
+                    sc.abort()
+                    return info
+            emitted = drain() if ev != "peer-disconnect" else []
+            names = [(N.name_of(m), m.hbh, m.e2e) for m in emitted]
+            if exp["hard"]:
+                for want in exp["emit"]:
+                    if want == "DPR":
+                        if [n for n, _, _ in names].count("DPR") != 1:
+                            info.update(result="violation", key="real-loopback-emission-differs-from-model", detail="after %s: %s written, exactly one DPR expected" % (trace, names))
+                            sc.abort()
+                            return info
+                    elif (want, h, e) not in names or [n for n, _, _ in names].count(want) != 1:
+                        info.update(result="violation", key="real-loopback-emission-differs-from-model", detail="after %s: %s written, one %s for (%d, %d) expected" % (trace, names, want, h, e))
+                        sc.abort()
+                        return info
+            time.sleep(0.05)
+            if ev.startswith("APP-req") and model != scen.OPEN and len(delivered) > ndel:
+                info.update(result="violation", key="real-loopback-delivery-outside-open", detail="after %s a message was handed to the application in %s" % (trace, model))
+                sc.abort()
+                return info
+            # follow the node where the model is soft
+            st = sc.node.get_current_state()
+            model = scen.reported_to_model(st)
+            info["events_applied"] = step + 1
+            if model == scen.CLOSED or ev == "peer-disconnect":
+                break
+            if model not in (scen.OPEN, scen.CLOSING):
+                break
+        if model != scen.CLOSED:
+            # finish: whatever state we are in, a peer disconnect must close it (H4)
+            try:
+                sc.psock.close()
+            except OSError:
+                pass
+            try:
+                sc.wait(lambda: sc.node.get_current_state() == "Closed", "Closed after final disconnect (%s)" % trace, 30)
+            except Timeout:
+                info.update(result="violation", key="real-loopback-state-differs-from-model", detail="after %s + peer disconnect the node reports %s" % (trace, sc.node.get_current_state()))
+                sc.abort()
+                return info
+
+        def leftover():
+            return [t.name for t in threading.enumerate() if t not in sc.threads_before and t.is_alive() and not t.daemon]
+        try:
+            sc.wait(lambda: not leftover(), "threads", 20)
+        except Timeout:
+            info.update(result="violation", key="real-loopback-closed-but-not-released", detail="after %s: threads %s still alive in Closed" % (trace, leftover()))
+            sc.abort()
+            return info
+        sc.abort()
+        time.sleep(0.05)
+        extra = [f for f in open_fds() if f not in sc.fds_before and "eventpoll" not in f]
+        if extra:
+            info.update(result="violation", key="real-loopback-closed-but-not-released", detail="after %s: sockets %s still open in Closed" % (trace, extra))
+            return info
+        info.update(result="ok", trace=trace)
+        return info
+    except Timeout as ex:
+        info.update(result="timeout", detail=str(ex))
+        sc.abort()
+        return info
+    except Garbled as ex:
+        info.update(result="violation", key="real-loopback-outbound-stream-garbled", detail=str(ex))
+        sc.abort()
+        return info
+
+
 DEATHS = []
 
 
@@ -656,7 +789,7 @@ def _excepthook(args):
 def run_cases(acc, cases):
     """cases: [{'kind','seed','role',...}] executed one after another; a timeout is retried once, alone, before it counts."""
     threading.excepthook = _excepthook          # uncaught exceptions of the node's threads go into the report, not to stderr
-    fn = {"inbound": inbound_case, "outbound": outbound_case, "lifecycle": lifecycle_case, "base": base_answers_case}
+    fn = {"inbound": inbound_case, "outbound": outbound_case, "lifecycle": lifecycle_case, "base": base_answers_case, "statemachine": statemachine_case}
     if any(c["kind"] == "app" for c in cases):
         from . import realapp
         fn["app"] = realapp.app_case
